@@ -53,6 +53,10 @@
 (*     attaching afterwards is refused (attachfail);                       *)
 (*  S8 stop request / socket gone (stop, rclose): S6 without the           *)
 (*     completeness clause;                                                *)
+(*  S9 the runtime stops by itself only for inactivity (the clock was       *)
+(*     advanced, event "advance") and never while a consumer that attached *)
+(*     and has not dropped is being served: such a consumer is never told  *)
+(*     unlinked / end of stream while the link is open;                    *)
 (*  C1 every command on the socket was written by a consumer, at most once;*)
 (*  C2 commands of one consumer that conflict (value: all; map: same key,  *)
 (*     or one is a clear) arrive in the order written;                     *)
@@ -112,6 +116,7 @@ NoCons == [att |-> FALSE]
 PInit(kind, enabled, strategy) ==
     [kind    |-> kind,          \* "value" | "map" | "mapevent" (map downlink without interpretation)
      strat   |-> strategy,      \* what the runtime is told to do with a malformed frame: "abort" | "ignore"
+     adv     |-> FALSE,         \* the clock was advanced (inactivity timeouts are in play)
      nbad    |-> 0,             \* malformed frames the lane's side sent (map downlink)
      enabled |-> enabled,       \* ids of OPEN known findings (deviation actions allowed)
      st      |-> "ok",          \* "ok" | "fail"
@@ -407,7 +412,11 @@ CheckCommands(p) ==
 OnFinish(p, e) ==
     LET q == CheckSessions(p) IN
     IF q.st # "ok" THEN q
-    ELSE IF p.closed = "no" /\ Has(e, "running") /\ ~e.running THEN Fail(q, "the runtime stopped although the link is open")
+    \* S9 the runtime may stop by itself only for INACTIVITY: the clock has been advanced and no session
+    \*    is cut by it - no consumer that attached (and did not drop) is without service
+    ELSE IF p.closed = "no" /\ Has(e, "running") /\ ~e.running
+            /\ ~(p.adv /\ \A i \in 1..Len(p.cons) : p.cons[i].ph \notin {"att", "linked", "synced"})
+        THEN Fail(q, "the runtime stopped although the link is open")
     ELSE CheckCommands(q)
 
 -----------------------------------------------------------------------------
@@ -424,6 +433,7 @@ PStep(p, e) ==
     ELSE IF e.k = "settle" THEN OnSettle(p)
     ELSE IF e.k = "stop" THEN OnStop(p)
     ELSE IF e.k = "rclose" THEN OnRClose(p)
+    ELSE IF e.k = "advance" THEN [p EXCEPT !.adv = TRUE]
     ELSE IF e.k = "finish" THEN OnFinish(p, e)
     ELSE Fail(p, "unknown event")
 
